@@ -65,6 +65,7 @@ def gen_case(rnd, boot_in_run=False, max_cmds=6):
             "boot_in_run": boot_in_run,
             "reason": rnd.choice(["done", "lost", "boom"]),
             "wd_before": rnd.choice([0, 0, 1, 2, 3]), "wd_after": rnd.choice([0, 1, 1, 2, 3]),
+            "wd_behaviours": [rnd.choice(["none", "none", "again", "submit"]) for _ in range(3)],
             "chunking": gen.chunking(rnd)}
 
 
@@ -103,11 +104,35 @@ def run_case(case, rec):
         rec.case(case, nontrivial=False)
         return
     wds = []
+    reentrant_cmds = []
+    behaviours = case.get("wd_behaviours") or []
     for i in range(case["wd_before"]):
         try:
-            wds.append(s.aud.watch(s.proto.when_disconnected(), "wd-before-%d" % i))
+            d = s.proto.when_disconnected()
         except Exception as e:
             s.exceptions.append(("when_disconnected", -1, repr(e)))
+            continue
+        b = behaviours[i] if i < len(behaviours) else "none"
+        if b == "again":
+            # the notification handler asks again (e.g. generic "run on disconnect" helper)
+            def again(res, i=i):
+                try:
+                    wds.append(s.aud.watch(s.proto.when_disconnected(), "wd-reentrant-%d" % i))
+                except Exception as e:
+                    s.exceptions.append(("when_disconnected", -1, repr(e)))
+                return res
+            d.addBoth(again)
+        elif b == "submit":
+            # the notification handler submits a command (e.g. tries to send QUIT / a retry)
+            def resubmit(res, i=i):
+                rr = ctl.CmdRec(1000 + i, {"cmd": "FROMWD%d x" % i, "perline": False, "when": ("wd",),
+                                           "reply": (250, [("end", "OK")]), "post": True})
+                s.commands.append(rr)
+                reentrant_cmds.append(rr)
+                s.submit(rr, "wd-callback")
+                return res
+            d.addBoth(resubmit)
+        wds.append(s.aud.watch(d, "wd-before-%d" % i))
     reason = {"done": None, "lost": "lost", "boom": "boom"}[case["reason"]]
     s.run(cut_at=case["cut"], reason=reason)
     if not s.lost:
